@@ -91,6 +91,7 @@ def opCalDec (args : List SExp) : Option OpResult := do
       | .error .abstain => "?singular-element-twice"
     let judge : String → List (String × String) := fun got =>
       (if got.startsWith "5" || got = "panic" then [("C13", "report-answered-5xx")] else []) ++
+      (if impl = "400" && !(got.startsWith "4") then [("C13", s!"malformed-report-answered-{(got.splitOn " ").headD got}")] else []) ++
       (match intended with
        | some q => if got = s!"ok {kpQuery q}" then [] else [("C08", "server-alters-rfc-query")]
        | none => if impl.startsWith "?" || got = impl then [] else [("C08", "server-reads-query-differently")])
